@@ -8,6 +8,7 @@ import GoBT.Json.Amount
 import GoBT.Json.Shapes
 import GoBT.Props.C01
 import GoBT.Props.C13
+import GoBT.Props.C16Float
 namespace GoBT.C16
 open GoBT GoBT.Json
 
@@ -28,6 +29,12 @@ theorem node_tx_with_hex (tx : Tx) (h : tx.wf) (hamb : ¬ tx.ambiguous) (v lt : 
     nodeTxToTx { version := v, lockTime := lt, hex := some (.ok (serialize false tx)), vin := vin, vout := vout } =
       .ok (tx.norm false) := by
   simp [nodeTxToTx, C01.parseExact_serialize tx h hamb]
+
+/-- **Every representable amount survives the float64 detour** (proof in GoBT/Props/C16Float.lean, the one module that
+    uses Mathlib's ordered-field tactics): satoshis → `float64(sats)/1e8` → `uint64(math.Round(value*1e8))` is the
+    identity for every amount up to the 21-million-coin cap, given correctly rounded binary64 arithmetic. -/
+theorem amounts_round_trip (n : Nat) (hn : n ≤ 2100000000000000) : decodeAmount (encodeAmount n) = n :=
+  C16F.amount_round_trip n hn
 
 /-- Why truncation was wrong: 0.29 BSV (29,000,000 satoshis) came back as 28,999,999, and 3 satoshis as 2.
     (The replay of the defect repaired in go-bt; kept as a machine-checked counterexample.) -/
